@@ -390,3 +390,49 @@ Proof.
   intros Hop Hl. unfold ps_contains. rewrite Hop, Hl. cbn [sm_exec].
   unfold sm_odist, sm_dot, pneg. cbn [px py]. lia.
 Qed.
+
+(* ---- constructors: with_center / center / from_circle / to_circle ----------------------------------------
+   Rounding rule: the centre of a shape of diameter d is top_left + (d - 1) / 2 (floor) per axis: for an even
+   diameter the true centre lies between four pixels and the upper-left of them is reported; with_center inverts
+   exactly that, so with_center(center()) is the identity for odd AND even diameters. *)
+Theorem sector_with_center_center s :
+  rect_ok (se_bbox s) -> se_with_center (se_center s) (se_d s) (se_ps s) = s.
+Proof.
+  intros H. unfold se_with_center, se_center.
+  change (S (se_d s) (se_d s)) with (sz (se_bbox s)). rewrite (with_center_center _ H).
+  destruct s; reflexivity.
+Qed.
+
+Theorem sector_center_with_center c d ps :
+  0 <= d <= bound -> se_center (se_with_center c d ps) = c.
+Proof.
+  intros H. unfold se_center, se_with_center, se_bbox. cbn [se_tl se_d].
+  change (R (tl (with_center c (S d d))) (S d d)) with (with_center c (S d d)).
+  apply center_with_center. split; exact H.
+Qed.
+
+Theorem sector_center_formula s :
+  0 <= se_d s -> se_center s = P (px (se_tl s) + (Z.max (se_d s - 1) 0) / 2) (py (se_tl s) + (Z.max (se_d s - 1) 0) / 2).
+Proof. intros H. unfold se_center, se_bbox. unf. reflexivity. Qed.
+
+Theorem sector_from_circle_to_circle s : se_from_circle (se_to_circle s) (se_ps s) = s.
+Proof. destruct s; reflexivity. Qed.
+
+Theorem arc_with_center_center a :
+  rect_ok (ar_bbox a) -> ar_with_center (ar_center a) (ar_d a) (ar_ps a) = a.
+Proof.
+  intros H. unfold ar_with_center, ar_from_circle, sc_with_center, ar_center. cbn [sc_tl sc_d].
+  change (S (ar_d a) (ar_d a)) with (sz (ar_bbox a)). rewrite (with_center_center _ H).
+  destruct a; reflexivity.
+Qed.
+
+Theorem arc_center_with_center c d ps :
+  0 <= d <= bound -> ar_center (ar_with_center c d ps) = c.
+Proof.
+  intros H. unfold ar_center, ar_with_center, ar_from_circle, sc_with_center, ar_bbox. cbn [ar_tl ar_d sc_tl sc_d].
+  change (R (tl (with_center c (S d d))) (S d d)) with (with_center c (S d d)).
+  apply center_with_center. split; exact H.
+Qed.
+
+Theorem arc_from_circle_to_circle a : ar_from_circle (ar_to_circle a) (ar_ps a) = a.
+Proof. destruct a; reflexivity. Qed.
